@@ -243,6 +243,7 @@ pub fn sqlite_types() -> Vec<Ty> {
         Ty::Bool,
         Ty::Money(None),
         Ty::Money(Some((12, 4))),
+        Ty::Money(Some((19, 4))),
         Ty::Json,
         Ty::JsonB,
         Ty::Uuid,
